@@ -16,6 +16,7 @@ specification."""
 import ast
 import copy
 import itertools
+from fractions import Fraction
 
 from ..cfg import Assume, header_exprs, header_uses
 from ..core import (base_name, call_name, const_value, kwarg, names_loaded, params,
@@ -77,10 +78,24 @@ EXPLANATION = (
     '(recognised by form, decided by a truth table together with the weak '
     'orderings); (D1.angles-in-range) every in-place wrap `a[a < 0] += 360` in '
     'rotamer.py is followed, before the array is used, by a clamp / re-wrap of '
-    'the values the floating-point sum rounds up to 360.  The gate ARITHMETIC '
-    'for symbolic boundary sets and buffers (linear inequalities along each '
-    'path) is still not decided: that needs a solver, a different technique '
-    'family; only source literals are folded.')
+    'the values the floating-point sum rounds up to 360.  Added in the fourth '
+    'hardening wave: (D3.gates.composed) the exit decision as the machine uses '
+    'it - is_buffered_transition with get_gates and any module-level helper '
+    'interpreted inside it - is compared with the property itself (transition '
+    'iff the angle lies outside the arc [boundaries[s] - buffer, boundaries[s + 1] '
+    '+ buffer] of the circle; an arc of 360 degrees or more cannot be left) for '
+    'every literal boundary set, every state, every buffer the validation '
+    'admits and every angle off the gate values, with buffer and angle kept as '
+    'symbols: numbers are affine in the two, each comparison draws a line in '
+    'the buffer-angle plane, both sides are constant on the faces of the '
+    'arrangement of those lines, and the faces are enumerated exactly in '
+    'rational arithmetic (a finite abstract domain; no solver).  It decides '
+    'exit tests that mix conditions on the state or the boundaries with '
+    'comparisons of the gates - e.g. a covering guard that recognises the '
+    'wrap-around basin by ONE of its two seam tests - which the '
+    'weak-ordering rule cannot read.  The gate ARITHMETIC for SYMBOLIC '
+    'boundary sets is still not decided: that needs a solver, a different '
+    'technique family; only source literals are folded.')
 
 
 # ---------------------------------------------------------------------------
@@ -476,6 +491,45 @@ def _enclosing_loop(mod, node, fn):
     return None
 
 
+_INT_TYPES = {'int', 'int8', 'int16', 'int32', 'int64', 'intp', 'intc', 'short', 'long', 'longlong', 'uint8', 'uint16', 'uint32', 'uint64',
+              'uint', 'uintp', 'i1', 'i2', 'i4', 'i8', 'u1', 'u2', 'u4', 'u8', 'int_'}
+_BOOL_TYPES = {'bool', 'bool_', 'bool8', '?', 'b1'}
+_ALLOC_DTYPE_POS = {'np.ones': 1, 'np.zeros': 1, 'np.empty': 1, 'np.full': 2, 'np.ones_like': 1, 'np.zeros_like': 1, 'np.empty_like': 1,
+                    'np.full_like': 2, 'np.array': 1, 'np.asarray': 1, 'np.arange': None}
+
+
+def _dtype_kind(val):
+    """('int' | 'bool' | 'other' | 'unknown', text): the element type an
+    array-valued expression is given explicitly - the `dtype` of the
+    allocation call or the argument of a trailing .astype(); 'unknown' when
+    none or several different ones are spelled out."""
+    specs = []
+    for c in ast.walk(val):
+        if not isinstance(c, ast.Call):
+            continue
+        cn = (call_name(c) or '').replace('numpy.', 'np.')
+        d = kwarg(c, 'dtype')
+        if d is None and isinstance(c.func, ast.Attribute) and c.func.attr == 'astype' and len(c.args) >= 1:
+            d = c.args[0]
+        pos = _ALLOC_DTYPE_POS.get(cn)
+        if d is None and pos is not None and len(c.args) > pos:
+            d = c.args[pos]
+        if d is not None:
+            specs.append(d)
+    texts = set()
+    for d in specs:
+        t = const_value(d) if isinstance(const_value(d), str) else u(d)
+        for pre in ('np.', 'numpy.', 'np.dtype(', 'numpy.dtype('):
+            if t.startswith(pre):
+                t = t[len(pre):]
+        t = t.rstrip(')').strip('\'"').lstrip('<>=|')
+        texts.add(t)
+    if len(texts) != 1:
+        return 'unknown', ' / '.join(sorted(texts)) or 'not spelled out'
+    t = next(iter(texts))
+    return ('int' if t in _INT_TYPES else 'bool' if t in _BOOL_TYPES else 'other'), t
+
+
 # ---------------------------------------------------------------------------
 # D1
 
@@ -511,6 +565,36 @@ def d1_carried_state(ck, mod):
                  scope={angles, R})
     ck.decide(v, rule + '.frames', mod, loop, F, fi.xu(loop.iter), 'frames 1..n-1 are processed in order',
               'the state machine must visit frames 1 .. n_frames-1 in order')
+
+    # --- the only way out of the frame loop is the exhaustion of the frames: a `break` leaves the
+    # remaining frames at whatever the array was allocated with, unless the tail is filled afterwards
+    # (then the rule cannot relate the fill to the machine: incomplete); a `raise` inside the loop
+    # cannot be related to the admitted inputs either.  (`return` inside the loop: see .record.)
+    tail = [s for s, _t in subscript_stores(fn, R) if not _within(mod, s, loop) and cfg.reachable(loop, s)]
+    for x in ast.walk(loop):
+        if isinstance(x, ast.Break) and _enclosing_loop(mod, x, fn) is loop:
+            if tail:
+                ck.missing(rule + '.frames', 'the frame loop is left early (break at %s) and %s is stored into after the loop' % (mod.loc(x), R))
+            else:
+                conds = [u(n.test) if n.polarity else 'not (%s)' % u(n.test) for n in governing(fi, x, inside=loop)]
+                ck.bad(rule + '.frames', mod, x, F, 'early exit from the frame loop',
+                       'the frame loop is left by `break`%s before the last frame: every later frame keeps the value %s was allocated with instead of '
+                       'the state of the hysteresis machine (the only exit the property allows is the exhaustion of the frames)' % (
+                           (' when ' + ' and '.join(conds)[:120]) if conds else '', R))
+        elif isinstance(x, ast.Raise):
+            ck.missing(rule + '.frames', 'the frame loop can be left by an exception raised at %s: not related to the admitted inputs' % mod.loc(x))
+
+    # --- the array that records the states can hold every basin index
+    allocs = [d for d in fi.rd.defs_at(loop, R) if not isinstance(d, str)]
+    aval = fi.def_value(allocs[0], R) if len(allocs) == 1 and isinstance(allocs[0], (ast.Assign, ast.AnnAssign)) else None
+    if aval is None:
+        ck.missing(rule + '.state-dtype', 'single allocation `%s = <array>` before the frame loop' % R)
+    else:
+        kind, shown = _dtype_kind(fi.expand(aval))
+        v = ('match', {}) if kind == 'int' else ('near', 0, None) if kind == 'bool' else ('far', 0, None)
+        ck.decide(v, rule + '.state-dtype', mod, allocs[0], F, 'element type of the state array: %s' % shown,
+                  'an integer type: every basin index is representable',
+                  'the state array must hold basin indices 0 .. n_basins-1: a boolean array collapses every state above 1 to True (three basins: state 2 is recorded as 1)')
 
     # --- the carried state: the loop-carried name
     carried = loop_carried(fi, loop)
@@ -1011,7 +1095,7 @@ def _gates_run(fn, cs_, hb, bw, lit, S, forced=None, noop=()):
     return (r[1] if r is not None else None), generic
 
 
-def d3_gates(ck, mod, memo=None):
+def d3_gates(ck, mod, memo=None, comp=None):
     """get_gates is decided SEMANTICALLY: for every literal boundary set the
     library passes and every state of it (the finite domain the property
     quantifies over) the loop-free body is evaluated with the buffer kept as a
@@ -1035,6 +1119,16 @@ def d3_gates(ck, mod, memo=None):
     if not sets:
         ck.missing(rule + '.lookup', 'no literal boundary set is passed to _rotamers: the gates cannot be evaluated')
         return
+    comp = comp or {}
+
+    def undecided(rid, msg):
+        """The gates on their own are not understood; the property only sees them through the exit
+        decision, and that composition may have been decided as a whole (C20.D3.gates.composed)."""
+        if comp.get('status') == 'ok':
+            ck.ok(rid, mod, fn, 'gates decided together with the exit test (C20.D3.gates.composed)',
+                  'no model for get_gates alone (%s); is_buffered_transition with this get_gates inside equals the widened-basin test' % msg[:120])
+        elif comp.get('status') != 'bad':
+            ck.missing(rid, msg)
     forced, noop = {}, []
     mm = (memo or {}).get(fn)
     if mm:
@@ -1079,10 +1173,10 @@ def d3_gates(ck, mod, memo=None):
                     kind = 'widen' if abs(g.b - w.b) > 1e-9 else 'wrap' if (seam or abs(g.c - marker) < 1e-9) else 'lookup'
                     bad[kind].append('%s: %s gate is %r, must be %r' % (where, which, g, w))
     except _Unsupported as e:
-        ck.missing(rule + '.lookup', 'get_gates is not a loop-free computation over the state, the boundaries and the buffer that the evaluator has a model for (%s)' % e)
+        undecided(rule + '.lookup', 'get_gates is not a loop-free computation over the state, the boundaries and the buffer that the evaluator has a model for (%s)' % e)
         return
     if unsure and not any(bad.values()):
-        ck.missing(rule + '.wrap', 'get_gates: %s' % '; '.join(unsure[:2]))
+        undecided(rule + '.wrap', 'get_gates: %s' % '; '.join(unsure[:2]))
         return
     if bad['order'] and not all_swapped:
         bad['lookup'] += bad['order']
@@ -1345,7 +1439,7 @@ def literal_boundary_sets(ck, mod, rule=None):
     return sets
 
 
-def d3_exit_test(ck, mod):
+def d3_exit_test(ck, mod, comp=None):
     rule = 'C20.D3.gates'
     F = GATE
     ft = mod.func(F)
@@ -1353,6 +1447,18 @@ def d3_exit_test(ck, mod):
     fi = finfo(mod, ft)
     ps = params(ft)
     gsig = params(mod.func(GATES))
+    comp = comp or {}
+
+    def give_up(rid, msg):
+        """This rule reads the exit test as order comparisons of two opaque gates and the angle.  A
+        spelling outside that class is still decided when the composed evaluation (the function
+        interpreted together with get_gates over the buffer-angle plane) went through."""
+        if comp.get('status'):
+            ck.ok(rid, mod, ft, 'exit test decided together with the gates (C20.D3.gates.composed)',
+                  'not a decision over order comparisons of two opaque gates and the angle (%s); decided by the composed evaluation instead' % msg[:120])
+            return {'covering-handled': comp.get('covering')}
+        ck.missing(rid, msg + (' [composed evaluation not possible either: %s]' % comp['why'][:120] if comp.get('why') else ''))
+        return {}
     if len(ps) != 4 or len(gsig) != 3:
         ck.missing(rule + '.order', 'signatures of is_buffered_transition / get_gates not recognised')
         return {}
@@ -1360,8 +1466,7 @@ def d3_exit_test(ck, mod):
     calls = [c for c in calls_in(ft) if call_name(c) == GATES]
     b = bind_args(calls[0], gsig) if len(calls) == 1 else None
     if b is None or len(b) != 3:
-        ck.missing(rule + '.order', 'one call get_gates(<state>, <boundaries>, <buffer>) in is_buffered_transition')
-        return {}
+        return give_up(rule + '.order', 'one call get_gates(<state>, <boundaries>, <buffer>) in is_buffered_transition')
     call = calls[0]
     v = _worst([classify(fi.expand(b[p]), [want], scope=set(ps)) for p, want in zip(gsig, (cs_, hb, bw))])
     ck.decide(v, rule + '.order', mod, call, F, u(call), 'gates are computed for the current state, the boundaries and the buffer',
@@ -1381,8 +1486,7 @@ def d3_exit_test(ck, mod):
         LO, UP = '%s[0]' % g, '%s[1]' % g
         ck.ok(rule + '.order', mod, held[0], u(held[0]), 'the pair get_gates returns is taken apart by index: %s = lower gate, %s = upper gate' % (LO, UP))
     else:
-        ck.missing(rule + '.order', 'unpacking `<lower>, <upper> = get_gates(...)` in is_buffered_transition')
-        return {}
+        return give_up(rule + '.order', 'unpacking `<lower>, <upper> = get_gates(...)` in is_buffered_transition')
 
     # --- tests that involve neither a gate nor the angle (state / boundaries / buffer only) are
     # not order comparisons of the three numbers: each is recognised by its form and then decided
@@ -1406,12 +1510,10 @@ def d3_exit_test(ck, mod):
         if na in nm:
             continue
         if not _is_covering_test(x, cs_, hb, bw):
-            ck.missing(rule + '.exit-test', 'a test of is_buffered_transition over the state / boundaries / buffer is not recognised: %s' % u(x)[:120])
-            return {}
+            return give_up(rule + '.exit-test', 'a test of is_buffered_transition over the state / boundaries / buffer is not recognised: %s' % u(x)[:120])
         covering.append(st)
     if len(covering) > 2 or len(index) > 2:
-        ck.missing(rule + '.exit-test', '%d covering tests, %d tests over basin indices in is_buffered_transition' % (len(covering), len(index)))
-        return {}
+        return give_up(rule + '.exit-test', '%d covering tests, %d tests over basin indices in is_buffered_transition' % (len(covering), len(index)))
 
     # --- the decision itself, exactly: a boolean function of order comparisons
     # between three numbers is determined by the weak ordering of the three.
@@ -1447,8 +1549,7 @@ def d3_exit_test(ck, mod):
                 for k in local:
                     cases[k] += local[k]
     except _Unsupported as e:
-        ck.missing(rule + '.exit-test', 'is_buffered_transition is not a loop-free decision over order comparisons of the gates and the angle (%s)' % e)
-        return {}
+        return give_up(rule + '.exit-test', 'is_buffered_transition is not a loop-free decision over order comparisons of the gates and the angle (%s)' % e)
     index_bad = False
     for ti, pairs, const in shortcuts:
         shown = ' and '.join(('' if t else 'not ') + '(%s)' % u(x) for (_st, x, _r), t in zip(index, ti))
@@ -1476,9 +1577,8 @@ def d3_exit_test(ck, mod):
             ck.ok(rule + '.exit-test', mod, st0, 'no transition while the angle is in the current basin (%s)' % shown,
                   'an angle inside the current basin is inside the widened basin: no transition, whatever the gates')
         else:
-            ck.missing(rule + '.exit-test', 'a decision of is_buffered_transition taken from basin indices (%s) is not understood: '
+            return give_up(rule + '.exit-test', 'a decision of is_buffered_transition taken from basin indices (%s) is not understood: '
                        'result %s for the index pairs %s' % (shown, const or 'depends on the gates but differs from the gate test', pairs[:6]))
-            return {}
     if covering:
         ck.check(not cases['covering'], rule + '.exit-test', mod, covering[0], F,
                  'widened basin spans the circle (%s): no transition' % u(canon(inline_values(mod, fi.expand(covering[0].test)))),
@@ -1494,7 +1594,11 @@ def d3_exit_test(ck, mod):
     ck.check(not cases['degenerate'], rule + '.exit-test', mod, ft, F, 'result defaults to False',
              'no transition unless an exit test fires', 'with coinciding gates no exit test fires and the result must be False; counter-example: ' +
              '; '.join(cases['degenerate'][:2]))
-    return {'covering-handled': bool(covering) and not any(cases.values())}
+    handled = bool(covering) and not any(cases.values())
+    if comp.get('status'):
+        # the composed evaluation knows which gate orders actually occur for the library's boundary sets
+        handled = comp.get('covering')
+    return {'covering-handled': handled}
 
 
 # --- linear forms (constant folding over + - * / of literals; no solving) -----
@@ -1624,6 +1728,32 @@ def _aff(e, bw, hb, lit):
     return None
 
 
+def _buffer_sup(fi, facts, bw, hb, lit):
+    """((least upper bound, strict) or None, opaque conditions): the upper end
+    of the buffer range that the validation facts of _rotamers (atomic
+    conditions known to hold at its return) admit for the literal boundary
+    set `lit`; conditions that are not linear forms over literals are listed
+    as opaque."""
+    sup, opaque = None, []
+    for a in facts:
+        if not isinstance(a, Cmp) or bw not in names_loaded(fi.expand(a.lhs)) | names_loaded(fi.expand(a.rhs)):
+            continue
+        less = a.as_less()
+        if less is None:
+            continue
+        small, strict, big = less
+        x, y = _aff(canon(fi.expand(small)), bw, hb, lit), _aff(canon(fi.expand(big)), bw, hb, lit)
+        if x is None or y is None:
+            opaque.append(repr(a))
+            continue
+        d1, d0 = y[0] - x[0], y[1] - x[1]          # 0 <(=) d1 * b + d0
+        if d1 < 0:
+            bound = d0 / -d1
+            if sup is None or bound < sup[0] or (bound == sup[0] and strict):
+                sup = (bound, strict)
+    return sup, opaque
+
+
 def d3_buffer_range(ck, mod, exit_info):
     """The wrap-around basin is recognised by is_buffered_transition through
     `upper gate < lower gate` alone.  For the basin [lo, hi] of width w the
@@ -1660,23 +1790,7 @@ def d3_buffer_range(ck, mod, exit_info):
     handled = exit_info.get('covering-handled')
     failing = []
     for lit, users in sorted(sets.items()):
-        sup, opaque = None, []
-        for a in facts:
-            if not isinstance(a, Cmp) or bw not in names_loaded(fi.expand(a.lhs)) | names_loaded(fi.expand(a.rhs)):
-                continue
-            less = a.as_less()
-            if less is None:
-                continue
-            small, strict, big = less
-            x, y = _aff(canon(fi.expand(small)), bw, hb, lit), _aff(canon(fi.expand(big)), bw, hb, lit)
-            if x is None or y is None:
-                opaque.append(repr(a))
-                continue
-            d1, d0 = y[0] - x[0], y[1] - x[1]          # 0 <(=) d1 * b + d0
-            if d1 < 0:
-                bound = d0 / -d1
-                if sup is None or bound < sup[0] or (bound == sup[0] and strict):
-                    sup = (bound, strict)
+        sup, opaque = _buffer_sup(fi, facts, bw, hb, lit)
         widest = max(b - a for a, b in zip(lit[:-1], lit[1:]))
         con = 'buffer range admitted for the boundary set %s' % (list(lit),)
         who = ', '.join(sorted(set(users)))
@@ -1700,6 +1814,513 @@ def d3_buffer_range(ck, mod, exit_info):
                '(hysteresis lost, e.g. boundaries [0, 180, 360], buffer 100, angles [10, 200] -> states [0, 1]). Neither the validation '
                '(widest basin + 2 * buffer <= 360) nor the exit test (no transition when the widened basin spans the circle) covers it' % (
                    '; '.join(failing)))
+
+
+# --- the exit decision composed with the gates, decided over (buffer, angle) ---
+
+class _L2:
+    """c + p * <buffer> + q * <angle>, exact rational coefficients."""
+    __slots__ = ('c', 'p', 'q')
+
+    def __init__(self, c=0, p=0, q=0):
+        self.c, self.p, self.q = Fraction(c), Fraction(p), Fraction(q)
+
+    def is_const(self):
+        return self.p == 0 and self.q == 0
+
+    def at(self, b, a):
+        return self.c + self.p * b + self.q * a
+
+    def plus(self, o, k=1):
+        return _L2(self.c + k * o.c, self.p + k * o.p, self.q + k * o.q)
+
+    def times(self, k):
+        return _L2(self.c * k, self.p * k, self.q * k)
+
+    def key(self):
+        """The line {self == 0}, normalised (orientation dropped)."""
+        d = self.q if self.q != 0 else self.p
+        return (self.c / d, self.p / d, self.q / d)
+
+    def __repr__(self):
+        return '%s%s%s' % (float(self.c), ' %+g*buffer' % float(self.p) if self.p else '', ' %+g*angle' % float(self.q) if self.q else '')
+
+
+class _Point:
+    """One (buffer, angle) pair; every comparison whose outcome depends on
+    the pair is recorded as a line of the plane."""
+
+    def __init__(self, b, a, lines):
+        self.b, self.a, self.lines = b, a, lines
+
+    def sign(self, x):
+        if x.is_const():
+            v = x.c
+        else:
+            self.lines.add(x.key())
+            v = x.at(self.b, self.a)
+        return (v > 0) - (v < 0)
+
+
+def _module_number(mod, name):
+    """The number a module-level name is bound to, once, by `NAME = <literal>`
+    (and never rebound or mutated at run time); else None."""
+    hits = [n for n in mod.tree.body if isinstance(n, ast.Assign) and any(name in target_names(t) for t in n.targets)]
+    if len(hits) != 1 or len(hits[0].targets) != 1 or not isinstance(hits[0].targets[0], ast.Name) or name in runtime_writes(mod):
+        return None
+    v = const_value(canon(hits[0].value))
+    return v if type(v) in (int, float) else None
+
+
+class _Compose:
+    """Interpreter for the loop-free decision functions of the state machine
+    (is_buffered_transition, get_gates and whatever module-level helpers
+    they call) on ONE literal boundary set and ONE state, with the buffer
+    width and the angle kept as SYMBOLS: every number is an affine function
+    of the two (_L2); a comparison between two of them is decided at the
+    (buffer, angle) pair of the current _Point, which records the line the
+    comparison draws in the plane.  The boundaries are a tuple of constants.
+    Anything without a model raises _Unsupported; an exception the code
+    itself raises (IndexError on the boundaries, assert, raise) is _Raises."""
+
+    def __init__(self, mod, pt, forced=None, noop=(), top=None):
+        self.mod, self.pt = mod, pt
+        self.forced, self.noop = forced or {}, noop
+        self.top = top
+        self.trace = []         # (If statement of the top function, outcome)
+
+    # -- values
+    def num(self, v, what=''):
+        if isinstance(v, bool):
+            return _L2(int(v))
+        if not isinstance(v, _L2):
+            raise _Unsupported('%s is not a number' % (what or 'a value'))
+        return v
+
+    def const(self, v, what=''):
+        v = self.num(v, what)
+        if not v.is_const():
+            raise _Unsupported('%s depends on the buffer or the angle' % (what or 'a value'))
+        return v.c
+
+    def index(self, v, what):
+        k = self.const(v, what)
+        if k.denominator != 1:
+            raise _Unsupported('%s is not an integer' % what)
+        return int(k)
+
+    def truth(self, v):
+        if isinstance(v, bool):
+            return v
+        if v is None:
+            return False
+        if isinstance(v, _L2):
+            return self.pt.sign(v) != 0
+        if isinstance(v, tuple):
+            return len(v) > 0
+        raise _Unsupported('truth value of an opaque value')
+
+    def cmp(self, op, l, r, e):
+        if isinstance(op, (ast.Is, ast.IsNot)):
+            if l is None or r is None or isinstance(l, bool) and isinstance(r, bool):
+                return (l is r) == isinstance(op, ast.Is)
+            raise _Unsupported('identity test %s' % u(e)[:60])
+        if (l is None or r is None) and isinstance(op, (ast.Eq, ast.NotEq)):
+            if isinstance(l, (_L2, bool, tuple)) or isinstance(r, (_L2, bool, tuple)) or (l is None and r is None):
+                return (l is None and r is None) == isinstance(op, ast.Eq)
+        if type(op) not in _CMP:
+            raise _Unsupported('comparison %s' % u(e)[:60])
+        s = self.pt.sign(self.num(l, u(e)[:40]).plus(self.num(r, u(e)[:40]), -1))
+        return _CMP[type(op)](s, 0)
+
+    def count_below(self, x, bins, strict):
+        """Number of entries of the ascending constant tuple `bins` that are
+        <= x (strict: < x)."""
+        x = self.num(x, 'the value that is binned')
+        vals = [self.const(b_, 'a bin edge') for b_ in bins]
+        if any(b2 < b1 for b1, b2 in zip(vals, vals[1:])):
+            raise _Unsupported('bin edges are not ascending')
+        n = 0
+        for b_ in vals:
+            s = self.pt.sign(x.plus(_L2(b_), -1))
+            if s > 0 or (s == 0 and not strict):
+                n += 1
+            else:
+                break
+        return _L2(n)
+
+    # -- expressions
+    def ev(self, e, env):
+        if isinstance(e, ast.Constant):
+            if isinstance(e.value, bool) or e.value is None:
+                return e.value
+            if type(e.value) in (int, float):
+                return _L2(e.value)
+            return _Tok('<constant>')
+        if isinstance(e, ast.Name):
+            if e.id in env:
+                return env[e.id]
+            v = _module_number(self.mod, e.id)
+            if v is None:
+                raise _Unsupported('name %s' % e.id)
+            return _L2(v)
+        if isinstance(e, (ast.Tuple, ast.List)):
+            return tuple(self.ev(x, env) for x in e.elts)
+        if isinstance(e, ast.Subscript):
+            base = self.ev(e.value, env)
+            if not isinstance(base, tuple):
+                raise _Unsupported('subscript %s' % u(e)[:60])
+            if isinstance(e.slice, ast.Slice):
+                lo, up, st = [None if x is None or (isinstance(x, ast.Constant) and x.value is None) else self.index(self.ev(x, env), 'a slice bound')
+                              for x in (e.slice.lower, e.slice.upper, e.slice.step)]
+                if st == 0:
+                    raise _Raises('slice step 0')
+                return base[slice(lo, up, st)]
+            if isinstance(e.slice, ast.Tuple):
+                raise _Unsupported('subscript %s' % u(e)[:60])
+            k = self.index(self.ev(e.slice, env), 'the index in %s' % u(e)[:40])
+            if not -len(base) <= k < len(base):
+                raise _Raises('IndexError: %s with index %d, %d entries' % (u(e)[:40], k, len(base)))
+            return base[k]
+        if isinstance(e, ast.Call):
+            return self.call(e, env)
+        if isinstance(e, ast.BinOp):
+            l, r = self.num(self.ev(e.left, env), u(e.left)[:40]), self.num(self.ev(e.right, env), u(e.right)[:40])
+            if isinstance(e.op, ast.Add):
+                return l.plus(r)
+            if isinstance(e.op, ast.Sub):
+                return l.plus(r, -1)
+            if isinstance(e.op, ast.Mult) and (l.is_const() or r.is_const()):
+                return r.times(l.c) if l.is_const() else l.times(r.c)
+            if isinstance(e.op, ast.Div) and r.is_const():
+                if r.c == 0:
+                    raise _Raises('ZeroDivisionError: %s' % u(e)[:40])
+                return l.times(1 / r.c)
+            if isinstance(e.op, (ast.Mod, ast.FloorDiv)) and r.is_const() and r.c > 0:
+                # x = m * k + rest with 0 <= rest < m: the quotient k is found by comparisons
+                for k in (0, -1, 1, -2, 2, -3, 3):
+                    rest = l.plus(_L2(r.c * k), -1)
+                    if self.pt.sign(rest) >= 0 and self.pt.sign(rest.plus(_L2(r.c), -1)) < 0:
+                        return rest if isinstance(e.op, ast.Mod) else _L2(k)
+            raise _Unsupported('arithmetic %s' % u(e)[:60])
+        if isinstance(e, ast.UnaryOp):
+            if isinstance(e.op, ast.Not):
+                return not self.truth(self.ev(e.operand, env))
+            v = self.num(self.ev(e.operand, env), u(e.operand)[:40])
+            if isinstance(e.op, ast.USub):
+                return v.times(-1)
+            if isinstance(e.op, ast.UAdd):
+                return v
+            raise _Unsupported('operator in %s' % u(e)[:40])
+        if isinstance(e, ast.Compare):
+            if id(e) in self.forced:
+                return self.forced[id(e)]
+            left = self.ev(e.left, env)
+            for op, right in zip(e.ops, e.comparators):
+                r = self.ev(right, env)
+                if not self.cmp(op, left, r, e):
+                    return False
+                left = r
+            return True
+        if isinstance(e, ast.BoolOp):
+            v = None
+            for x in e.values:
+                v = self.ev(x, env)
+                if self.truth(v) != isinstance(e.op, ast.And):
+                    return v
+            return v
+        if isinstance(e, ast.IfExp):
+            return self.ev(e.body, env) if self.truth(self.ev(e.test, env)) else self.ev(e.orelse, env)
+        raise _Unsupported('expression %s' % u(e)[:60])
+
+    def call(self, e, env, depth=6):
+        cn = call_name(e) or ''
+        if any(isinstance(a, ast.Starred) for a in e.args) or any(k.arg is None for k in e.keywords):
+            raise _Unsupported('call %s' % u(e)[:60])
+        g = self.mod.functions.get(e.func.id) if isinstance(e.func, ast.Name) and e.func.id not in env else None
+        if g is not None:
+            return self.apply(g, e, env)
+        a = [self.ev(x, env) for x in e.args]
+        kw = {k.arg: self.ev(k.value, env) for k in e.keywords}
+        if cn in ('int', 'float') and len(a) == 1 and not kw:
+            v = self.num(a[0], 'argument of %s()' % cn)
+            if cn == 'float':
+                return v
+            if not v.is_const():
+                raise _Unsupported('int() of a value that depends on the buffer or the angle')
+            return _L2(int(v.c))            # truncation towards zero, as int() does
+        if cn == 'bool' and len(a) == 1 and not kw:
+            return self.truth(a[0])
+        if cn == 'len' and len(a) == 1 and not kw and isinstance(a[0], tuple):
+            return _L2(len(a[0]))
+        if cn == 'abs' and len(a) == 1 and not kw:
+            v = self.num(a[0], 'argument of abs()')
+            return v.times(-1) if self.pt.sign(v) < 0 else v
+        if cn in ('min', 'max') and not kw and (len(a) >= 2 or (len(a) == 1 and isinstance(a[0], tuple) and a[0])):
+            vs = [self.num(x, 'argument of %s()' % cn) for x in (a if len(a) >= 2 else a[0])]
+            best = vs[0]
+            for x in vs[1:]:
+                s = self.pt.sign(x.plus(best, -1))
+                if (s < 0 and cn == 'min') or (s > 0 and cn == 'max'):
+                    best = x
+            return best
+        if cn in _ARRAY_CONV + ('list', 'tuple') and len(a) == 1 and isinstance(a[0], tuple) and not set(kw) - {'dtype'}:
+            return a[0]
+        if cn in ('np.digitize', 'numpy.digitize') and len(a) in (2, 3) and set(kw) <= {'right'} and isinstance(a[1], tuple):
+            right = a[2] if len(a) == 3 else kw.get('right', False)
+            if not isinstance(right, bool):
+                raise _Unsupported('call %s' % u(e)[:60])
+            return self.count_below(a[0], a[1], strict=right)
+        if cn in ('np.searchsorted', 'numpy.searchsorted') and len(a) in (2, 3) and set(kw) <= {'side'} and isinstance(a[0], tuple):
+            side = e.args[2] if len(e.args) == 3 else kwarg(e, 'side')
+            side = 'left' if side is None else const_value(side)
+            if side not in ('left', 'right'):
+                raise _Unsupported('call %s' % u(e)[:60])
+            return self.count_below(a[1], a[0], strict=side == 'left')
+        raise _Unsupported('call %s' % u(e)[:60])
+
+    def apply(self, g, e, env):
+        """A call of a module-level function: its body is interpreted with
+        the parameters bound to the argument values."""
+        from ..core import param_default
+        if g.decorator_list or g.args.vararg or g.args.kwarg or getattr(self, '_depth', 0) >= 6:
+            raise _Unsupported('call %s' % u(e)[:60])
+        ps = params(g)
+        bnd = bind_args(e, ps)
+        if bnd is None:
+            raise _Unsupported('call %s' % u(e)[:60])
+        new = {}
+        for p_ in ps:
+            if p_ in bnd:
+                new[p_] = self.ev(bnd[p_], env)
+            else:
+                d = param_default(g, p_)
+                if d is None:
+                    raise _Raises('TypeError: %s misses the argument %s' % (u(e)[:40], p_))
+                new[p_] = self.ev(d, {})
+        return self.run_function(g, new)
+
+    def run_function(self, g, env):
+        self._depth = getattr(self, '_depth', 0) + 1
+        try:
+            r = self.run(g.body, env, g)
+        finally:
+            self._depth -= 1
+        return r[1] if r is not None else None
+
+    # -- statements
+    def assign(self, t, v, env):
+        if isinstance(t, ast.Name):
+            env[t.id] = v
+        elif isinstance(t, (ast.Tuple, ast.List)) and not any(isinstance(x, ast.Starred) for x in t.elts):
+            if not isinstance(v, tuple):
+                raise _Unsupported('unpacking of %s' % u(t)[:40])
+            if len(v) != len(t.elts):
+                raise _Raises('ValueError: unpacking %d values into %s' % (len(v), u(t)[:40]))
+            for te, ve in zip(t.elts, v):
+                self.assign(te, ve, env)
+        else:
+            raise _Unsupported('assignment target %s' % u(t)[:40])
+
+    def run(self, stmts, env, g):
+        for st in stmts:
+            if st in self.noop or isinstance(st, ast.Pass):
+                continue
+            if isinstance(st, ast.Expr):
+                if isinstance(st.value, ast.Constant) or (isinstance(st.value, ast.Call) and
+                                                         (call_name(st.value) or '').split('.')[0] in ('logger', 'logging', 'print', 'warnings')):
+                    continue
+                raise _Unsupported('statement %s' % u(st)[:60])
+            if isinstance(st, (ast.Assign, ast.AnnAssign)):
+                if st.value is None:
+                    continue
+                v = self.ev(st.value, env)
+                for t in (st.targets if isinstance(st, ast.Assign) else [st.target]):
+                    self.assign(t, v, env)
+                continue
+            if isinstance(st, ast.AugAssign) and isinstance(st.target, ast.Name):
+                env[st.target.id] = self.ev(ast.BinOp(left=ast.Name(id=st.target.id, ctx=ast.Load()), op=st.op, right=st.value), env)
+                continue
+            if isinstance(st, ast.If):
+                t = self.forced[id(st.test)] if id(st.test) in self.forced else self.truth(self.ev(st.test, env))
+                if g is self.top:
+                    self.trace.append((st, t))
+                r = self.run(st.body if t else st.orelse, env, g)
+                if r is not None:
+                    return r
+                continue
+            if isinstance(st, ast.Return):
+                return ('return', self.ev(st.value, env) if st.value is not None else None)
+            if isinstance(st, ast.Assert):
+                if not self.truth(self.ev(st.test, env)):
+                    raise _Raises('AssertionError: %s' % u(st.test)[:60])
+                continue
+            if isinstance(st, ast.Raise):
+                raise _Raises('raises %s' % u(st)[6:60])
+            raise _Unsupported('statement %s' % type(st).__name__)
+        return None
+
+
+def _arc_spec(lit, S, b, a):
+    """The property, for one basin of a literal boundary set: the widened
+    basin is the arc [lit[S] - b, lit[S + 1] + b] of the circle; an arc of
+    360 degrees or more is the whole circle and cannot be left; otherwise a
+    transition is an angle outside the arc (angles on its ends are not
+    sampled).  Returns (transition?, widened basin spans the circle?)."""
+    lo, up = lit[S] - b, lit[S + 1] + b
+    if up - lo >= 360:
+        return False, True
+    return not any(lo <= a + 360 * k <= up for k in (-1, 0, 1)), False
+
+
+def _arc_lines(lit, S):
+    lo, up = _L2(lit[S], -1), _L2(lit[S + 1], 1)
+    out = {up.plus(lo, -1).plus(_L2(360), -1).key(), _L2(0, 1).key()}
+    for k in (-1, 0, 1):
+        for g in (lo, up):
+            out.add(_L2(360 * k, 0, 1).plus(g, -1).key())
+    return out
+
+
+def _plane_samples(lines, sup, strict):
+    """Sample points of the plane region 0 <= buffer <(=) sup, 0 < angle < 360
+    that meet every face of the arrangement of `lines` in which the angle
+    is generic: for every critical buffer value (a vertical line, a crossing
+    of two lines, a line entering or leaving the angle range) and for one
+    value strictly between neighbouring critical values, one angle strictly
+    between each pair of neighbouring lines."""
+    sup = Fraction(sup)
+    slanted = sorted(l for l in lines if l[2] != 0)
+    crit = {Fraction(0)}
+    for c, p, q in lines:
+        if q == 0:
+            crit.add(-c)                        # normalised: p == 1
+        elif p != 0:
+            crit.add(-c / p)                    # angle 0
+            crit.add(-(c + 360) / p)            # angle 360
+    for i, (c1, p1, _q1) in enumerate(slanted):
+        for c2, p2, _q2 in slanted[i + 1:]:
+            if p1 != p2:
+                crit.add((c2 - c1) / (p1 - p2))
+    crit = sorted(x for x in crit if 0 <= x and (x < sup or (x == sup and not strict)))
+    bs = []
+    for x, y in zip(crit, crit[1:] + [sup]):
+        bs.append(x)
+        if x < y:
+            bs.append((x + y) / 2)
+    out = []
+    for b in bs:
+        cuts = sorted({Fraction(0), Fraction(360)} | {-(c + p * b) for c, p, _q in slanted if 0 < -(c + p * b) < 360})
+        out += [(b, (x + y) / 2) for x, y in zip(cuts, cuts[1:])]
+    return out
+
+
+def d3_composed(ck, mod, memo=None):
+    """The exit decision as the state machine USES it - is_buffered_transition
+    with get_gates (and any module-level helper) interpreted inside it - for
+    every literal boundary set the library passes, every state of it, every
+    buffer width the validation of _rotamers admits for that set and every
+    angle of (0, 360) off the finitely many gate values, against the
+    property itself: a transition is an angle outside the arc
+    [boundaries[s] - buffer, boundaries[s + 1] + buffer] of the circle, and an
+    arc that spans the circle cannot be left.  Both sides are piecewise
+    constant on the faces of the arrangement of the lines that their
+    comparisons of affine functions of (buffer, angle) draw in the plane; the
+    lines are collected while interpreting (a comparison met at one point of a
+    face is met at all of them), the faces are sampled exactly (rational
+    arithmetic) until no new line appears.  A finite abstract domain (sign
+    vectors of finitely many affine forms), no solver, nothing of /repo is
+    executed.  Returns {'status': 'ok' | 'bad' | None, 'covering': True /
+    False / None (the covering case is handled)}."""
+    rule = 'C20.D3.gates.composed'
+    out = {'status': None, 'covering': None, 'why': ''}
+    try:
+        ft, fr = mod.func(GATE), mod.func('_rotamers')
+    except Exception:
+        return out
+    ps = params(ft)
+    if len(ps) != 4 or len(params(fr)) < 3:
+        out['why'] = 'signature of is_buffered_transition / _rotamers'
+        return out
+    _ang, hb, bw = params(fr)[:3]
+    fi = finfo(mod, fr)
+    rets = returns_of(fr)
+    facts = guard_atoms(fi, rets[0]) if len(rets) == 1 else None
+    sets = literal_boundary_sets(ck, mod)
+    if facts is None or not sets or fi.rd.defs_at(rets[0], bw) != {'PARAM'}:
+        out['why'] = 'validation of _rotamers / literal boundary sets not recognised'
+        return out
+    forced, noop = {}, []
+    for g, mm in (memo or {}).items():
+        # a verified memo table (D5): a stored entry equals what the call computes - the miss path is the function
+        for n in walk_local(g):
+            if isinstance(n, ast.Compare) and len(n.ops) == 1 and isinstance(n.ops[0], (ast.In, ast.NotIn)) \
+                    and isinstance(n.comparators[0], ast.Name) and n.comparators[0].id == mm['table']:
+                forced[id(n)] = isinstance(n.ops[0], ast.NotIn)
+        noop += [st for st, _v in mm['fills']]
+    bad = {'covering': [], 'exit': []}
+    sites = {'covering': None, 'exit': None}
+    n_faces = n_cases = 0
+    try:
+        for lit in sorted(sets):
+            sup, _opaque = _buffer_sup(fi, facts, bw, hb, lit)
+            if sup is None:
+                raise _Unsupported('no upper end of the admitted buffer range for %s' % (list(lit),))
+            bounds = tuple(_L2(x) for x in lit)
+            flit = [Fraction(x) for x in lit]
+            for S in range(len(lit) - 1):
+                n_cases += 1
+                lines = _arc_lines(flit, S)
+                for _round in range(8):
+                    known = set(lines)
+                    found = {'covering': [], 'exit': []}
+                    samples = _plane_samples(known, sup[0], sup[1])
+                    for b, a in samples:
+                        pt = _Point(b, a, lines)
+                        run = _Compose(mod, pt, forced, noop, top=ft)
+                        env = dict(zip(ps, (_L2(S), _L2(0, 0, 1), bounds, _L2(0, 1, 0))))
+                        want, spans = _arc_spec(flit, S, b, a)
+                        try:
+                            got = run.truth(run.run_function(ft, env))
+                            shown = str(got)
+                        except _Raises as e:
+                            got, shown = None, str(e)
+                        if got is not want:
+                            guard = [st for st, _t in run.trace if ps[1] not in names_loaded(st.test)]
+                            found['covering' if spans else 'exit'].append(
+                                ('boundaries %s, state %d, buffer %g, angle %g: %s, the property says %s' % (
+                                    list(lit), S, float(b), float(a), shown if got is None else 'returns ' + shown, want), guard[0] if guard else None))
+                    if lines == known:
+                        break
+                else:
+                    raise _Unsupported('the comparisons of is_buffered_transition keep drawing new lines')
+                n_faces += len(samples)
+                for kind in found:
+                    bad[kind] += [t for t, _s in found[kind]]
+                    if found[kind] and sites[kind] is None:
+                        sites[kind] = found[kind][0][1]
+    except _Unsupported as e:
+        out['why'] = str(e)
+        return out
+    ck.analysed(mod, ft)
+    what = 'is_buffered_transition composed with get_gates'
+    if bad['covering']:
+        ck.bad(rule, mod, sites['covering'] or ft, GATE, 'exit decision for a widened basin that spans the circle',
+               '%s, evaluated with the buffer and the angle as symbols for every literal boundary set and state: a basin whose width plus twice the '
+               'buffer reaches 360 degrees covers the whole circle and cannot be left, for EVERY such basin (also the last one, whose upper gate is '
+               'the one get_gates wraps) - the validation of _rotamers admits these buffers. Counter-examples (%d faces): %s' % (
+                   what, len(bad['covering']), '; '.join(bad['covering'][:3])))
+    if bad['exit']:
+        ck.bad(rule, mod, sites['exit'] or ft, GATE, 'exit decision against the widened basin on the circle',
+               '%s, evaluated with the buffer and the angle as symbols for every literal boundary set and state: a transition is exactly an angle '
+               'outside [boundaries[s] - buffer, boundaries[s + 1] + buffer] taken on the circle (wrap-around at 0/360). Counter-examples (%d faces): %s' % (
+                   what, len(bad['exit']), '; '.join(bad['exit'][:3])))
+    if not bad['covering'] and not bad['exit']:
+        ck.ok(rule, mod, ft, '%s (%d boundary set / state pairs, %d faces of the buffer-angle plane)' % (what, n_cases, n_faces),
+              'transition iff the angle lies outside the current basin widened by the buffer on the circle; a widened basin that spans the circle is never left')
+    out['status'] = 'bad' if bad['covering'] or bad['exit'] else 'ok'
+    out['covering'] = not bad['covering']
+    return out
 
 
 def _mask_of(fi, idx):
@@ -2350,8 +2971,9 @@ def check(ck):
     mod = ck.repo.mod(RO)
     memo = d5_hidden_state(ck, [(RO, '_rotamers'), (DI, 'transitions')])
     d1_carried_state(ck, mod)
-    d3_gates(ck, mod, memo)
-    d3_buffer_range(ck, mod, d3_exit_test(ck, mod) or {})
+    comp = d3_composed(ck, mod, memo)
+    d3_gates(ck, mod, memo, comp)
+    d3_buffer_range(ck, mod, d3_exit_test(ck, mod, comp) or {})
     d1_wrapped_angles(ck, mod)
     d2_transitions(ck)
     d2_empty_result(ck)
